@@ -4,16 +4,20 @@ import json, os
 V = os.path.dirname(os.path.dirname(os.path.abspath(__file__)))
 props = [json.loads(l)["id"] for l in open(os.path.join(V, "properties.jsonl"))]
 
-CHECKS = {
- "C19": dict(
-    level=("proof", "Nine Coq theorems over an executable model of base64.c whose tables are regenerated from the "
-           "source on every run (round trip, RFC 4648 canonicity, chunking independence, exact accept language, "
-           "encode/decode write bounds), for all byte strings and all partitions; tied to the code by running "
-           "model (extracted) and base64.c (ASan, exact-size buffers) on >130k aimed cases per run.", "7 C19"),
-    note="Trusted: Coq kernel+vm_compute, gen_facts probe, extraction (ExtrOcamlBasic), harness/driver glue; "
-         "the C code itself is modelled, tied by differential testing, not verified.",
-    technique="Coq proof (induction + finite sweeps lifted by lemma) + translator for tables + differential correspondence"),
-}
+import importlib.util, sys
+sys.path.insert(0, os.path.join(V, "tools"))
+CHECKS = {}
+NA = {}
+for fn in sorted(os.listdir(os.path.join(V, "tools", "props"))):
+    if fn.startswith("c") and fn.endswith(".py"):
+        spec = importlib.util.spec_from_file_location("props." + fn[:-3], os.path.join(V, "tools", "props", fn))
+        mod = importlib.util.module_from_spec(spec); spec.loader.exec_module(mod)
+        e = getattr(mod, "MANIFEST", None)
+        if e:
+            CHECKS[fn[:-3].upper()] = e
+        n = getattr(mod, "NOT_APPLICABLE", None)
+        if n:
+            NA[fn[:-3].upper()] = n
 NOT_YET = "check not built yet (work in progress, see DESIGN.md sec. 10)"
 
 m = {
@@ -43,6 +47,6 @@ for p in props:
             "level_claimed": {"category": c["level"][0], "text": c["level"][1], "design_ref": c["level"][2]},
             "level_note": c["note"], "technique": c["technique"]})
     else:
-        m["not_applicable"].append({"property_id": p, "reason": NOT_YET})
+        m["not_applicable"].append({"property_id": p, "reason": NA.get(p, NOT_YET)})
 json.dump(m, open(os.path.join(V, "MANIFEST.json"), "w"), indent=1)
 print("wrote MANIFEST.json with %d checks" % len(m["checks"]))
